@@ -5,8 +5,11 @@ pub mod c02;
 pub mod c03;
 pub mod c04;
 pub mod c05;
+pub mod c06;
+pub mod c07;
 pub mod c08;
 pub mod c09;
+pub mod c12;
 pub mod c18;
 pub mod c19;
 pub mod c20;
@@ -24,8 +27,11 @@ pub fn registry() -> Vec<Check> {
         Check { id: "C03", level: "exploration", run: c03::run, replay: c03::replay },
         Check { id: "C04", level: "exploration", run: c04::run, replay: c04::replay },
         Check { id: "C05", level: "exploration", run: c05::run, replay: c05::replay },
+        Check { id: "C06", level: "exploration", run: c06::run, replay: c06::replay },
+        Check { id: "C07", level: "exploration", run: c07::run, replay: c07::replay },
         Check { id: "C08", level: "exploration", run: c08::run, replay: c08::replay },
         Check { id: "C09", level: "exploration", run: c09::run, replay: c09::replay },
+        Check { id: "C12", level: "exploration", run: c12::run, replay: c12::replay },
         Check { id: "C18", level: "exploration", run: c18::run, replay: c18::replay },
         Check { id: "C19", level: "exploration", run: c19::run, replay: c19::replay },
         Check { id: "C20", level: "exploration", run: c20::run, replay: c20::replay },
